@@ -19,7 +19,7 @@ var (
 	c06RespCC = []string{"", "max-age=60", "no-store", "no-store, max-age=60", "public", "must-understand, max-age=60", "private", "private, max-age=60",
 		`max-age=60, x-root="C:\\", no-store`, `x-q="a\", max-age=60", no-store, max-age=60`,
 		"x1, x2, x3, x4, x5, x6, x7, x8, x9, x10, x11, x12, x13, x14, x15, x16, no-store, max-age=60", "max-age=60, x-rep, x-rep=1, x-rep, no-store"}
-	c06Reqs = []string{"GET", "GET+no-store", "GET+Range", "GET+Range(items)", "GET+Range(Bytes)", "GET+If-None-Match", "GET+If-Modified-Since", "HEAD", "POST", "GET(empty Method)+Range", "GET+Range(on a second field line)"}
+	c06Reqs = []string{"GET", "GET+no-store", "GET+Range", "GET+Range(items)", "GET+Range(Bytes)", "GET+If-None-Match", "GET+If-Modified-Since", "HEAD", "POST", "GET(empty Method)+Range", "GET+Range(on a second field line)", "GET(empty Method)", "GET+no-store+Pragma"}
 )
 
 func c06Statuses(tier string) []int {
@@ -112,6 +112,11 @@ func runC06(x *mc.X) {
 		req.Header.Set("Range", "Bytes=0-3")
 	case "GET+Range(on a second field line)":
 		req.Header["Range"] = []string{"", "bytes=0-3"}
+	case "GET(empty Method)":
+		req.Method = ""
+	case "GET+no-store+Pragma": // Pragma matters only when there is no Cache-Control (RFC 9111 §5.4)
+		req.Header.Set("Cache-Control", "no-cache, no-store")
+		req.Header.Set("Pragma", "no-cache")
 	case "GET(empty Method)+Range":
 		req.Method = ""
 		req.Header.Set("Range", "bytes=0-3")
@@ -148,7 +153,7 @@ func runC06(x *mc.X) {
 		why = ""
 	case status == 304 && (pre == "stale" || pre == "stale+swr" || pre == "stale-no-validator" || pre == "stale+swr, entry cut short") && !ccs.Has("no-store") && reqKind != "GET+no-store":
 		why = "" // a 304 answering the cache's own validation request freshens the stored response (C08), it is not stored itself
-	case ccs.Has("no-store") || reqKind == "GET+no-store":
+	case ccs.Has("no-store") || reqKind == "GET+no-store" || reqKind == "GET+no-store+Pragma":
 		why = "no-store"
 	case strings.Contains(reqKind, "Range") || reqKind == "HEAD" || reqKind == "POST":
 		why = "not a plain GET"
@@ -179,7 +184,7 @@ func runC06(x *mc.X) {
 				"response %s (status %d, Cache-Control %q) must not be stored (%s) but written=%v, later served from the store=%v (%s)", tok, status, rcc, why, stored, replayed, o2)
 		}
 	}
-	if realistic304 && (reqKind == "GET" || reqKind == "GET+no-store") && o1.Err == nil && o1.Panic == nil && o1.Status == 304 {
+	if realistic304 && (reqKind == "GET" || reqKind == "GET+no-store" || reqKind == "GET(empty Method)" || reqKind == "GET+no-store+Pragma") && o1.Err == nil && o1.Panic == nil && o1.Status == 304 {
 		x.Failf(fmt.Sprintf("unconditional GET answered 304 (request=%s store=%s)", reqKind, pre), "the client sent no precondition, the origin answers 304 only to conditional requests, yet the client received %s", o1)
 	}
 	if o2.Err == nil && o2.Panic == nil && o2.Status == 304 {
@@ -190,7 +195,7 @@ func runC06(x *mc.X) {
 
 // runC06Body: the origin's body fails at every byte position.
 func runC06Body(x *mc.X) {
-	kind := mc.Pick(x, "failure", []string{"read-error", "short-of-content-length", "short-unknown-length-error"})
+	kind := mc.Pick(x, "failure", []string{"read-error", "short-of-content-length", "short-unknown-length-error", "one-read-error-then-the-rest"})
 	n := mc.Pick(x, "body-len", []int{1, 24, 4097})
 	ks := []int{0, 1, n / 2, n - 1}
 	if n == 24 || x.Tier() == "thorough" {
@@ -224,6 +229,8 @@ func runC06Body(x *mc.X) {
 		spec.BodyErr, spec.FailAt = io.EOF, k // clean EOF after k of n announced bytes
 	case "short-unknown-length-error":
 		spec.BodyErr, spec.FailAt, spec.UnknownCL = io.ErrUnexpectedEOF, k, true
+	case "one-read-error-then-the-rest": // the failure is not sticky: a second attempt to read would get the remaining bytes
+		spec.BodyErr, spec.FailAt, spec.UnknownCL, spec.FailOnce = errTimeoutLike{}, k, true, true
 	}
 	answer(w, spec)
 	o1 := get(w, U)
@@ -258,3 +265,9 @@ func runC06Body(x *mc.X) {
 		x.Failf("incompletely read body stored ("+kind+")", "body of %d bytes failed after %d (%s) but written=%v, later served from the store=%v (%s)", n, k, kind, stored, replayed, o2)
 	}
 }
+
+type errTimeoutLike struct{}
+
+func (errTimeoutLike) Error() string   { return "verif: read timed out (try again)" }
+func (errTimeoutLike) Timeout() bool   { return true }
+func (errTimeoutLike) Temporary() bool { return true }
